@@ -1036,13 +1036,35 @@ def rule_id_generator(ctx, facts, rule):
     nid = facts.fn("fastrace::collector::id::SpanId::next_id")
     if nid is not None:
         fb = [c for c in facts.closures_of(nid) if c is not gen]
-        rnd = any(c.calls_re(r"rand::random$") for c in fb)
+        rnd = any(sites_star(facts, c, lambda g, t: bool(re.search(r"rand::random$", t["callee"]))) for c in fb)   # directly or through SpanId::random()
         ctx.check(rnd, rule, nid.path, nid.span, "when the thread-local generator is gone (teardown) a random id is used instead of a constant", "",
                   "fallback closure does not call rand::random", extra="fallback")
     init = [f for p, f in facts.fns.items() if p.startswith("fastrace::collector::id::LOCAL_ID_GENERATOR::")]
     rnd2 = any(f.calls_re(r"rand::random$") for f in init)
     ctx.check(rnd2, rule, "fastrace::collector::id::LOCAL_ID_GENERATOR", "-", "the per-thread prefix is drawn at random when the thread first traces", "",
               "initialiser does not call rand::random", extra="prefix")
+
+
+def setter_shape(facts, prov, fn, adt_path, fld):
+    """`fn(self, x) -> Self` returns self with exactly field `fld` replaced by x -- written as a struct update
+    (`Self { fld: x, ..self }`), as `self.fld = x; self`, or through a crate-local helper. -> (ok, detail)"""
+    adt = facts.adts.get(adt_path)
+    if adt is None:
+        return False, "type %s not found" % adt_path
+    names = [f["name"] for f in adt["variants"][0]["fields"]]
+    # a strong update of the parameter: `_1.fld = ..` on every path to the return
+    writes = [b for b, blk in enumerate(fn.blocks) for st in blk["stmts"]
+              if st["k"] == "assign" and st["lhs"]["l"] == 1 and st["lhs"]["p"] == ["." + fld] and not blk["cleanup"]]
+    strong = bool(writes) and fn.must_pass([0], writes)[0]
+    got = {}
+    for k in names:
+        src = {sig(x) for x in data_origins(prov.of_local(fn, 0, ("." + k,)))}
+        got[k] = src
+    mine = set(got.get(fld, ()))
+    if strong:
+        mine.discard(("param", 1, ("." + fld,)))       # overwritten before the value is returned
+    ok = mine == {("param", 2, ())} and all(got[k] == {("param", 1, ("." + k,))} for k in names if k != fld)
+    return ok, "%s <- %s; others %s" % (fld, sorted(mine), {k: sorted(v) for k, v in got.items() if k != fld and v != {("param", 1, ("." + k,))}})
 
 
 def rule_context_constructors(ctx, facts, rule):
@@ -1057,14 +1079,11 @@ def rule_context_constructors(ctx, facts, rule):
     ctx.check(ok, rule, "fastrace::collector::id::SpanContext::new", "-", "SpanContext::new(trace_id, span_id) stores its arguments in the fields of the same name", "",
               "field origins differ", extra="new")
     fn = facts.fn("fastrace::collector::id::SpanContext::sampled")
-    ok2 = False
+    ok2, why2 = False, "anchor lost"
     if fn is not None:
-        assigns = [(b, s) for b, blk in enumerate(fn.blocks) for s in blk["stmts"] if s["k"] == "assign" and s["lhs"]["l"] == 1 and s["lhs"]["p"] == [".sampled"]]
-        ok2 = len(assigns) == 1 and {sig(x) for x in data_origins(prov._of_rvalue(fn, assigns[0][0], assigns[0][1]["rv"], (), 0, set()))} == {("param", 2, ())}
-        ret = data_origins(prov.of_local(fn, 0))
-        ok2 = ok2 and any(x.kind == "param" and x.key == 1 for x in ret)
-    ctx.check(ok2, rule, "fastrace::collector::id::SpanContext::sampled", "-", "SpanContext::sampled(flag) sets exactly the sampled field to its argument and returns the context", "",
-              "setter shape differs", extra="sampled")
+        ok2, why2 = setter_shape(facts, prov, fn, SPAN_CONTEXT, "sampled")
+    ctx.check(ok2, rule, "fastrace::collector::id::SpanContext::sampled", "-", "SpanContext::sampled(flag) sets exactly the sampled field to its argument and returns the context", why2,
+              "setter shape differs: %s" % why2, extra="sampled")
 
 
 def rule_pairs_keep_orientation(ctx, facts, rule):
@@ -1102,16 +1121,8 @@ def rule_config(ctx, facts, rule):
         detail = "cancelable <- %s, report_interval <- %s" % (origin_strs(canc), origin_strs(prov.of_operand(fn, f["report_interval"]), 3))
     ctx.check(ok, rule, "<%s as Default>::default" % CFG, "-", "Config::default() is the non-cancelable configuration", detail, detail, extra="default")
     for meth, fld in (("cancelable", "cancelable"), ("report_interval", "report_interval")):
-        cs = [c for c in constructions(facts, CFG, crates=["fastrace"]) if c[0].path == CFG + "::" + meth]
-        ok = False
-        detail = "no construction"
-        if cs:
-            fn, b, s, f = cs[0]
-            mine = {sig(x) for x in data_origins(prov.of_operand(fn, f[fld]))}
-            others = [k for k in f if k != fld]
-            keep = all({sig(x) for x in data_origins(prov.of_operand(fn, f[k]))} == {("param", 1, ("." + k,))} for k in others)
-            ok = mine == {("param", 2, ())} and keep
-            detail = "%s <- %s, other fields kept: %s" % (fld, sorted(mine), keep)
+        fn = facts.fn(CFG + "::" + meth)
+        ok, detail = (False, "anchor lost") if fn is None else setter_shape(facts, prov, fn, CFG, fld)
         ctx.check(ok, rule, CFG + "::" + meth, "-", "Config::%s(x) sets %s to x and keeps the other settings" % (meth, fld), detail, detail, extra=meth)
 
 
